@@ -267,11 +267,24 @@ func (g *seqGen) c11Script(r *RNG) []Op {
 	// make the files that held the superseded data non-current
 	extra, _ := hex.DecodeString("1208ee01020304050607")
 	ops = append(ops, mkOp("put", "k", hx(extra), "v", val()), mkOp("flush"), mkOp("put", "k", hx(extra), "v", val()), mkOp("flush"))
-	ops = append(ops, mkOp("view"), mkOp("disk"), mkOp("acct"), mkOp("c11mark"))
+	// time-limited variant: the collector's own time limit expires in every cycle, so each cycle visits exactly one file after its
+	// freelist phase; the files must still all be reached, one per cycle
+	tl := r.Bool(35)
 	lowuse := []string{"85", "85", "50", "100"}[r.Intn(4)]
-	for round := 0; round < 7; round++ {
+	nRounds := 7
+	if tl {
+		ops = append(ops, mkOp("view"), mkOp("disk"), mkOp("acct"), mkOp("c11mark", "tl", "1"))
+		nRounds = 16
+	} else {
+		ops = append(ops, mkOp("view"), mkOp("disk"), mkOp("acct"), mkOp("c11mark"))
+	}
+	for round := 0; round < nRounds; round++ {
 		ops = append(ops, mkOp("c11round", "n", strconv.Itoa(round)))
-		ops = append(ops, mkOp("sizes"), mkOp("pgc", "lowuse", lowuse, "budget", "-1"), mkOp("sizes"), mkOp("flush"), mkOp("view"), mkOp("disk"), mkOp("acct"))
+		pg := mkOp("pgc", "lowuse", lowuse, "budget", "-1")
+		if tl {
+			pg = mkOp("pgc", "lowuse", lowuse, "tl", "1")
+		}
+		ops = append(ops, mkOp("sizes"), pg, mkOp("sizes"), mkOp("flush"), mkOp("view"), mkOp("disk"), mkOp("acct"))
 		ops = append(ops, mkOp("sizes"), mkOp("igc", "scanfree", strconv.Itoa(r.Intn(2)), "budget", "-1"), mkOp("sizes"), mkOp("view"), mkOp("disk"))
 	}
 	ops = append(ops, mkOp("c11end"))
